@@ -580,6 +580,7 @@ class C03Engine(Engine):
                     out.violate("C03.H", f"{culprit}:{trans}", step, got=val, got_exc=exc, fresh=fval, fresh_exc=fexc)
                     continue
                 if exc is not None:
+                    out.counters[f"probe:both-raised({op['op']}:{exc})"] += 1  # a call that claims nothing: watch the share
                     continue
                 sfb = np.where(np.isfinite(fb), aux.get("scale_fb", np.abs(fb)), 0.0) if "scale_fb" not in aux else aux["scale_fb"]
                 scale = float(np.sum(np.abs(ref_integral(spec, sfb)))) + 1e-300
